@@ -6,6 +6,7 @@ import (
 	"time"
 
 	"github.com/tyler-sommer/stick"
+	"github.com/tyler-sommer/stick/twig"
 
 	"verif/core"
 )
@@ -364,7 +365,154 @@ func c07Recursive(n, b int) core.Result {
 	return core.Okay(true, out)
 }
 
+// c07Args: the arguments of a macro call are evaluated in the caller's scope, before any parameter is bound: a call
+// p(b, a) from a scope that has its own a and b swaps them, and the caller's a and b are what they were afterwards.
+// form: 0 _self, 1 import alias, 2 from-import; wrap: 0 top level (a, b, c from the context), 1 a and b set by the
+// template, 2 inside a loop whose variable is a, 3 inside another macro whose parameters are a, b, c.
+func c07Args(form, wrap int, args []int) core.Result {
+	exprs := []string{"a", "b", "c", "'L'", "a ~ b", "b ~ a", "c ~ a"}
+	vals := map[string]string{"a": "A", "b": "B", "c": "C"}
+	if wrap == 2 {
+		vals["a"] = "I"
+	}
+	if wrap == 3 {
+		vals = map[string]string{"a": "1", "b": "2", "c": "3"}
+	}
+	ev := func(i int) string {
+		switch exprs[i] {
+		case "'L'":
+			return "L"
+		case "a ~ b":
+			return vals["a"] + vals["b"]
+		case "b ~ a":
+			return vals["b"] + vals["a"]
+		case "c ~ a":
+			return vals["c"] + vals["a"]
+		}
+		return vals[exprs[i]]
+	}
+	names := []string{"a", "b", "c"}[:len(args)]
+	body := ""
+	for _, n := range names {
+		body += "{{ " + n + " }},"
+	}
+	mac := "{% macro p(" + strings.Join(names, ", ") + ") %}(" + body + "){% endmacro %}"
+	var as, ws []string
+	for _, i := range args {
+		as = append(as, exprs[i])
+		ws = append(ws, ev(i))
+	}
+	call := "_self.p(" + strings.Join(as, ", ") + ")"
+	head := ""
+	switch form {
+	case 1:
+		head = "{% import 'mac' as mm %}"
+		call = "mm.p(" + strings.Join(as, ", ") + ")"
+	case 2:
+		head = "{% from 'mac' import p %}"
+		call = "p(" + strings.Join(as, ", ") + ")"
+	}
+	obs := "[{{ a }}{{ b }}{{ c }}]"
+	site := "{{ " + call + " }}" + obs
+	want := "(" + strings.Join(ws, ",") + ",)[" + vals["a"] + vals["b"] + vals["c"] + "]"
+	src := ""
+	switch wrap {
+	case 0:
+		src = mac + head + site
+	case 1:
+		src = mac + head + "{% set a = 'A' %}{% set b = 'B' %}" + site
+	case 2:
+		src = mac + head + "{% for a in ['I'] %}" + site + "{% endfor %}" + obs
+		want += "[ABC]"
+	case 3:
+		// the macro scope does not see the template's imports: the outer macro imports for itself
+		src = mac + "{% macro outer(a, b, c) %}" + head + site + "{% endmacro %}" + head + "{{ _self.outer('1', '2', '3') }}" + obs
+		want += "[ABC]"
+	}
+	env := c07Env()
+	env.Loader = &stick.MemoryLoader{Templates: map[string]string{"main": src, "mac": mac}}
+	out, err, pan := tryExec(env, "main", map[string]stick.Value{"a": "A", "b": "B", "c": "C"})
+	if pan != "" || err != nil {
+		return core.Violation("error", fmt.Sprintf("%q: %v %s", src, err, pan))
+	}
+	if out != want {
+		return core.Violation("scoping", fmt.Sprintf("%q (context a=A b=B c=C) renders\n    %q, want\n    %q", src, out, want))
+	}
+	return core.Okay(true, out)
+}
+
+var c07AliasArgs = []string{"", "(['y'])", "(1)", "(1, 2)", "(',')", "({'k': 'y'})", "(['y', 'z', 'w'])", "(0, 1)"}
+
+// c07Alias (twig environment): a body that assigns only to fresh local names leaves the outer variables exactly as they
+// were - also when it derives its values from them with a built-in filter. base is a list of n elements (origin 0:
+// accumulated with merge in a loop, 1: a context slice with spare capacity, 2: a literal); a = base|merge(['x']); the
+// body applies filter f to base and to a, in a loop / if / macro / at the top level; a and base read the same afterwards.
+func c07Alias(fi, ai, n, origin, wrap int) core.Result {
+	f := c02FilterNames()[fi] + c07AliasArgs[ai]
+	ctx := map[string]stick.Value{}
+	var els []string
+	for i := 1; i <= n; i++ {
+		els = append(els, itoa(i))
+	}
+	build := ""
+	switch origin {
+	case 0:
+		build = "{% set base = [] %}{% for i in [" + strings.Join(els, ", ") + "] %}{% set base = base|merge([i]) %}{% endfor %}"
+	case 1:
+		sl := make([]stick.Value, n, n+6)
+		for i := range sl {
+			sl[i] = i + 1
+		}
+		ctx["base"] = sl
+	case 2:
+		build = "{% set base = [" + strings.Join(els, ", ") + "] %}"
+	}
+	obs := "{{ a|join(',') }};{{ base|join(',') }};{{ a|length }};{{ base|length }}"
+	use := "{% set tmp = base|" + f + " %}{% set tmp2 = a|" + f + " %}{% set tmp3 = base|merge(['q'])|" + f + " %}"
+	body := use
+	switch wrap {
+	case 1:
+		body = "{% for j in [1] %}" + use + "{% endfor %}"
+	case 2:
+		body = "{% if true %}" + use + "{% endif %}"
+	case 3:
+		body = "{% macro m(base, a) %}" + use + "{% endmacro %}{{ _self.m(base, a) }}"
+	}
+	pre := build + "{% set a = base|merge(['x']) %}"
+	env := twig.New(nil)
+	before, err, pan := tryExec(env, pre+obs, ctx)
+	if pan != "" || err != nil {
+		return core.Violation("error", fmt.Sprintf("%q: %v %s", pre+obs, err, pan))
+	}
+	want := strings.Join(append(append([]string{}, els...), "x"), ",") + ";" + strings.Join(els, ",") + ";" + itoa(n+1) + ";" + itoa(n)
+	if before != want {
+		return core.Violation("scoping", fmt.Sprintf("%q renders %q, want %q", pre+obs, before, want))
+	}
+	src := pre + body + obs
+	after, err, pan := tryExec(env, src, ctx)
+	if pan != "" {
+		return core.Violation("panic", fmt.Sprintf("%q panicked: %s", src, pan))
+	}
+	if err != nil {
+		r := core.Okay(false, "filter-refuses-the-operands")
+		r.Cnt = map[string]int64{"alias: filter refused the operands": 1}
+		return r
+	}
+	if after != want {
+		return core.Violation("scoping", fmt.Sprintf("%q renders %q: a and base read %q before the body, which assigns only to fresh names", src, after, want))
+	}
+	r := core.Okay(true, "alias-ok "+f)
+	r.Cnt = map[string]int64{"alias: filter applied": 1}
+	return r
+}
+
 func c07Run(c core.Case) core.Result {
+	if c.Fam == "alias" {
+		return c07Alias(c.N[0], c.N[1], c.N[2], c.N[3], c.N[4])
+	}
+	if c.Fam == "args" {
+		return c07Args(c.N[0], c.N[1], c.N[2:])
+	}
 	if c.Fam == "deep" {
 		return c07Deep(c.N[0], c.N[1])
 	}
@@ -469,6 +617,33 @@ func c07Levels(tier string) []core.Level {
 			for b := 1; b <= 3; b++ {
 				for n := 0; n <= 5; n++ {
 					emit(core.Case{Fam: "rec", N: []int{n, b}})
+				}
+			}
+		}},
+		{Name: "macro arguments named like the parameters: p(a, b) and p(a, b, c) called with every argument list over {a, b, c, 'L', a ~ b, b ~ a, c ~ a} (49 + 343) through _self / an import alias / a from-import, from the top level, after sets, inside a loop over a, and inside another macro with parameters a, b, c: each parameter is the argument's value in the caller's scope, and the caller's variables are unchanged afterwards", Gen: func(emit func(core.Case)) {
+			for form := 0; form < 3; form++ {
+				for wrap := 0; wrap < 4; wrap++ {
+					for i := 0; i < 7; i++ {
+						for j := 0; j < 7; j++ {
+							emit(core.Case{Fam: "args", N: []int{form, wrap, i, j}})
+							for k := 0; k < 7; k++ {
+								emit(core.Case{Fam: "args", N: []int{form, wrap, i, j, k}})
+							}
+						}
+					}
+				}
+			}
+		}},
+		{Name: fmt.Sprintf("twig environment, no aliasing between variables: a body (top level / loop / if / macro) that assigns the result of every built-in filter (%d) x %d argument lists applied to a list variable and to a value derived from it only to fresh names; lists of 0..9 elements accumulated with merge, passed as a context slice with spare capacity, or written as a literal: the outer variables read exactly as before", len(c02FilterNames()), len(c07AliasArgs)), Gen: func(emit func(core.Case)) {
+			for fi := range c02FilterNames() {
+				for ai := range c07AliasArgs {
+					for n := 0; n <= 9; n++ {
+						for origin := 0; origin < 3; origin++ {
+							for wrap := 0; wrap < 4; wrap++ {
+								emit(core.Case{Fam: "alias", N: []int{fi, ai, n, origin, wrap}})
+							}
+						}
+					}
 				}
 			}
 		}},
